@@ -5,6 +5,7 @@ package bcrypt
 
 //@ func (a Authenticator) Handle(response tq.Response, request tq.Request)
 //@   implements tq.Handler.Handle
+//@   taints[C18] request.Body 3
 //@   requires a.loggerProvider != nil
 //@   requires[C14] len(a.hash) == 0 ==> a.getSecret != nil
 
